@@ -433,3 +433,42 @@ Definition delete_target (group filename : str) : option str :=
     if contains SLASH filename then None
     else Some (join2 group (clean (SLASH :: filename)))
   end.
+
+(* ------------------------------------------------------------------ *)
+(* group/group.go, Description.GetPermission: the username a join ends up
+   with, for every way a username enters (password credentials, a token that
+   carries a username -- stateful token or the `sub` of a JWT --, a token
+   without username plus a client-chosen name).  The token machinery and the
+   password match are oracles:
+     tok_present   creds.Token != ""
+     parse_ok      token.Parse succeeded
+     needs         tok.NeedsUsername()
+     check         tok.Check: None = error, Some u = the username it returns
+     cuser         creds.Username (None = nil)
+     user_exists   desc.userExists( *creds.Username)
+     password_ok   getPasswordPermission succeeded
+   Result: None = the join is refused, Some u = (username, perms) returned. *)
+Definition get_permission_username (tok_present parse_ok needs : bool)
+           (check : option str) (cuser : option str)
+           (user_exists password_ok : bool) : option str :=
+  let r :=
+    if tok_present then
+      if negb parse_ok then None
+      else if (match cuser with None => true | Some _ => false end) && needs then None
+      else match check with
+           | None => None
+           | Some tu =>
+             match tu, cuser with
+             | [], Some cu => if user_exists then None else Some cu
+             | _, _ => Some tu
+             end
+           end
+    else
+      match cuser with
+      | Some cu => if password_ok then Some cu else None
+      | None => None
+      end in
+  match r with
+  | Some username => if valid_username username then Some username else None
+  | None => None
+  end.
